@@ -154,7 +154,7 @@ func Gen(seed uint64, tier string) any {
 			if c.Net == "udp" && e.Size > sc.UDPSize {
 				e.Size = sc.UDPSize
 			}
-			e.H.Kind = core.Pick(r, "normal", "normal", "normal", "normal", "wrongid", "twice", "silent", "oversize", "wrongthenright")
+			e.H.Kind = core.Pick(r, "normal", "normal", "normal", "normal", "wrongid", "twice", "silent", "oversize", "wrongthenright", "raw", "rawoversize")
 			e.H.Steps = r.IntN(4)
 			if core.Chance(r, 25) {
 				e.H.SleepMs = core.Pick(r, 1, 20, 400, 3000)
@@ -411,7 +411,38 @@ func (x *run) ServeDNS(w dns.ResponseWriter, r *dns.Msg) {
 			}
 		}
 	}
+	sendRaw := func(m *dns.Msg) {
+		// the handler packs the reply itself and hands the octets to ResponseWriter.Write
+		b, perr := m.Pack()
+		if perr != nil {
+			return
+		}
+		_, err := w.Write(clone(b))
+		k.Lock()
+		ex.written = append(ex.written, clone(b))
+		ex.writeOK = append(ex.writeOK, err == nil)
+		ex.writeT = append(ex.writeT, time.Now())
+		if err == nil {
+			ra := w.RemoteAddr().String()
+			x.connReply[ra] = append(x.connReply[ra], clone(b))
+		}
+		if ex.net == "tcp" && len(b) > 65535 {
+			x.res.Stats["oracle.F1_oversize_refused"]++
+			if err == nil {
+				x.res.Fail("F1", "oversize-accepted", "ResponseWriter.Write accepted %d octets for a stream", len(b))
+			}
+		}
+		k.EffectLocked("h.wroteraw " + tok + " " + common.ErrStr(err))
+		k.Unlock()
+	}
 	switch p.Kind {
+	case "raw":
+		sendRaw(mk(r.Id, p.ReplySize))
+	case "rawoversize":
+		if ex.net == "tcp" {
+			sendRaw(mk(r.Id, 65536+p.Steps*50))
+		}
+		send(mk(r.Id, p.ReplySize))
 	case "silent":
 	case "wrongid":
 		send(mk(r.Id^0x8000, p.ReplySize)) // an ID no exchange of this run uses
@@ -567,6 +598,14 @@ func (c *clientTask) RunEvent(time.Time) {
 			k.Lock()
 			x.res.Fail("F1", "valid-size-refused", "the client refused to send a %d-octet request as too large", len(b))
 			k.Unlock()
+		}
+		if e.API != 2 {
+			x.bump("oracle.X2_deadline_respected")
+			if over := time.Since(deadline); over > time.Millisecond {
+				k.Lock()
+				x.res.Fail("X2", "deadline-overrun", "exchange %s over %s returned %v after its deadline (timeout %d ms, context %v): skipped replies must not extend the wait", ex.token, plan.Net, over, e.TimeoutMs, e.API == 1)
+				k.Unlock()
+			}
 		}
 		out := x.judgeExchange(ex, plan.Net, sconn, dconn, rcvStart, &reads, r, err, deadline)
 		k.Lock()
@@ -769,7 +808,11 @@ func (j *junkTask) RunEvent(time.Time) {
 		m.SetQuestion("junk.test.", dns.TypeA)
 		m.Id = uint16(50000 + i)
 		var b []byte
-		switch (int(x.sc.RunSeed) + i) % 4 {
+		switch (int(x.sc.RunSeed) + i) % 5 {
+		case 4:
+			// a query whose header passes every policy but whose question is cut short: answered with FORMERR
+			b, _ = m.Pack()
+			b = b[:len(b)-3]
 		case 0:
 			m.Response = true
 			b, _ = m.Pack()
